@@ -238,10 +238,28 @@ class Explorer:
             # boundary candidates first (all-ones, alternating patterns, values around 2^53): where the code under
             # test forces enumeration (floats, range(n), hashing) the interesting inputs are at the edges
             self._cand_i = getattr(self, "_cand_i", 0)
-            if self._cand_i < 6 and x.hi - x.lo > 64:
+            if x.hi - x.lo > 64:
                 bits = max(x.hi.bit_length(), 1)
                 cands = [x.hi, int("55" * 16, 16) & ((1 << bits) - 1), (1 << 53) + 1, x.hi - 1, x.lo, (1 << (bits - 1))]
-                while self._cand_i < 6 and v is None:
+                # ... and the byte boundaries (2^8k, 2^8k - 1, 2^8k + 1): where float rounding, byte counts computed from
+                # logarithms or bit lengths, and sign bits go wrong
+                for k in range(8, bits + 1, 8):
+                    cands += [1 << k, (1 << k) - 1, (1 << k) + 1]
+            else:
+                cands = []
+            if x.hi - x.lo >= self.fork_cap:
+                # a domain too wide to enumerate: the boundary candidates and a handful of solver-chosen values, then
+                # this path is inconclusive (arbitrary further values of a 64-bit variable add nothing)
+                site = 0
+                for d in reversed(self.decisions):
+                    if d[0] == 'c' and not d[2]:
+                        site += 1
+                    else:
+                        break
+                if site >= len(cands) + 8:
+                    raise ForkCap()
+            if self._cand_i < len(cands):
+                while self._cand_i < len(cands) and v is None:
                     c = cands[self._cand_i]
                     self._cand_i += 1
                     if x.lo <= c <= x.hi and self._feasible(x.t == z3.BitVecVal(c, x.w)):
